@@ -110,6 +110,97 @@ class C07(Prop):
         return st
 
 
+CONC_TB = [KERNEL, TIE, "model of events.rs written by hand (MioModel/EventQueueConc.lean): sender calls are single atomic enqueues, the receiver is split at every shared access",
+           "crossbeam-channel: linearizable unbounded FIFO channels that never lose or invent an item; select! completes only on a ready operation and prefers ready operations over its timeout (assumed)",
+           "the eager receiver schedule built by the driver is replayed through `step`, so it is a legal model execution"]
+CONC_ASSUME = ["Instant::now() is monotone across threads", "send_with_timer is modelled as one atomic step (clock read + sequence number + enqueue)",
+               "timing: logical grid with four disjoint phases (sender calls, timer deadlines, receiver calls, timeouts); runs that miss a slot are repeated; a late return that repeats in 6 consecutive runs is a failure"]
+
+
+class C06(Prop):
+    id = "C06"
+    module = "MioModel.Props.C06"
+    bins = ["vq"]
+    run_bin = "vq"
+    rule = ("cases = stress histories (2/4/8/16 sender threads behind a barrier, each a random mix of plain, priority "
+            "and timed sends with equal durations across threads so that same-instant timers collide, some cancelled, "
+            "sender handles dropped before delivery, one receiver cycling try_receive/receive_timeout) checked against the "
+            "history predicate of the theorems (exactly once, per-sender FIFO, nothing invented); plus two-thread grid "
+            "histories validated step by step against the model. non-trivial = stress history in which the returned "
+            "order interleaves senders (tag interleaved) or a grid history in which a blocked call was woken (tag woken); "
+            "distinct = by recorded trace")
+    trusted_base = CONC_TB
+    assumptions = CONC_ASSUME
+
+    def nontrivial(self, case, tags):
+        return "interleaved" in tags or "woken" in tags
+
+    def tie(self, stats, tier, seed):
+        cmp = getattr(self, "compare", True)
+        th = tier == "thorough"
+        core.tie_run(stats, "vq", ["gen-stress", seed, 24 if th else 8, 20000 if th else 3000], self.nontrivial, cmp)
+        core.tie_run(stats, "vq", ["gen-conc", seed, 1500 if th else 200], self.nontrivial, cmp)
+
+    def search(self, tier, seed):
+        st = core.Stats()
+        core.tie_run(st, "vq", ["gen-stress", seed + 1, 12, 30000], self.nontrivial, False)
+        return st
+
+
+class C08(Prop):
+    id = "C08"
+    module = "MioModel.Props.C08"
+    bins = ["vq"]
+    run_bin = "vq"
+    rule = ("cases = two-thread grid histories (a sender thread schedules timers with durations 1/5/9/13 units and far "
+            "future, cancels some while the receiver is idle or blocked inside receive()/receive_timeout(); the receiver "
+            "issues try_receive/receive_timeout/receive) validated against the small-step model, plus stress histories "
+            "checking never-early and cancel-exactness on every timer. non-trivial = history with a cancel (tag cancel) or "
+            "a blocked call woken by a timer/command (tag woken), stress histories (tag interleaved); distinct = by trace")
+    trusted_base = CONC_TB
+    assumptions = CONC_ASSUME + ["fires_without_sender is exercised by the stress run (sender handles are dropped before delivery), not modelled"]
+
+    def nontrivial(self, case, tags):
+        return "cancel" in tags or "woken" in tags or "interleaved" in tags
+
+    def tie(self, stats, tier, seed):
+        cmp = getattr(self, "compare", True)
+        th = tier == "thorough"
+        core.tie_run(stats, "vq", ["gen-conc", seed + 3, 4000 if th else 500], self.nontrivial, cmp)
+        core.tie_run(stats, "vq", ["gen-stress", seed + 3, 12 if th else 4, 10000 if th else 2000], self.nontrivial, cmp)
+
+    def search(self, tier, seed):
+        st = core.Stats()
+        core.tie_run(st, "vq", ["gen-conc", seed + 11, 2500], self.nontrivial, False)
+        return st
+
+
+class C16(Prop):
+    id = "C16"
+    module = "MioModel.Props.C16"
+    bins = ["vq"]
+    run_bin = "vq"
+    rule = ("cases = two-thread grid histories: the receiver blocks in receive()/receive_timeout(d) on an empty queue or "
+            "behind a longer timer; the sender thread sends each kind (plain, priority, timer shorter/longer than the "
+            "pending ones, cancel) at later grid instants; the recorded result and return instant of every call are "
+            "validated against the small-step model played eagerly. non-trivial = a blocked call woken by a send or a "
+            "timer (tag woken) or timed out after waiting (tag waited); distinct = by trace")
+    trusted_base = CONC_TB
+    assumptions = CONC_ASSUME
+
+    def nontrivial(self, case, tags):
+        return "woken" in tags or "waited" in tags
+
+    def tie(self, stats, tier, seed):
+        cmp = getattr(self, "compare", True)
+        core.tie_run(stats, "vq", ["gen-conc", seed + 5, 5000 if tier == "thorough" else 600], self.nontrivial, cmp)
+
+    def search(self, tier, seed):
+        st = core.Stats()
+        core.tie_run(st, "vq", ["gen-conc", seed + 13, 2500], self.nontrivial, False)
+        return st
+
+
 class C14(Prop):
     id = "C14"
     module = "MioModel.Props.C14"
@@ -141,4 +232,4 @@ class C14(Prop):
         core.tie_run(stats, "rid", ["gen", seed, 300000 if tier == "thorough" else 20000], self.nontrivial, cmp)
 
 
-PROPS = {p.id: p() for p in [C02, C07, C14, C17, C19]}
+PROPS = {p.id: p() for p in [C02, C06, C07, C08, C14, C16, C17, C19]}
